@@ -667,6 +667,89 @@ fn stress(cfg: &Cfg, rng: &mut Rng) {
     }
 }
 
+/// Requests that carry nothing the peer could tell callers apart by (GET_FEATURES, GET_MAX_MEM_SLOTS): the
+/// peer answers every request with a value it never uses twice; every call must return a value the peer
+/// sent and no two calls the same one ("every caller receives the reply to its own request": one reply,
+/// one caller).
+fn unique_values(cfg: &Cfg, rng: &mut Rng) {
+    let threads = 4u32;
+    let calls = cfg.pick(1500, 10000) as u32;
+    let (endpoint, peer, ep_fd) = make_endpoint(Ep::Fe, true);
+    let Endpoint::Fe(f) = endpoint else { return };
+    let peer_fd = peer.as_raw_fd();
+    let c = ctl::global();
+    c.reset();
+    c.set_jitter(Some(rng.next()));
+    let total = threads * calls;
+    let peer_h = std::thread::spawn(move || {
+        let mut served = 0u64;
+        let mut overlap = 0u32;
+        let deadline = Instant::now() + Duration::from_secs(60);
+        while served < total as u64 && Instant::now() < deadline {
+            if sys::inq(peer_fd) >= 12 {
+                let mut m = spec::read_msg(peer_fd, 1000, 64);
+                m.close_fds();
+                if !m.complete() {
+                    break;
+                }
+                std::thread::yield_now();
+                if sys::inq(peer_fd) != 0 {
+                    overlap += 1;
+                }
+                served += 1;
+                let _ = sys::send_all(peer_fd, &spec::msg(m.hdr().code, F_VERSION1 | F_REPLY, &spec::p_u64(0x5000_0000 + served)), &[]);
+            } else {
+                std::thread::yield_now();
+            }
+        }
+        (served, overlap)
+    });
+    let mut hs = Vec::new();
+    for t in 0..threads {
+        let mut f2 = f.clone();
+        hs.push(std::thread::spawn(move || {
+            use vhost::vhost_user::VhostUserFrontend;
+            let mut got: Vec<Result<u64, String>> = Vec::new();
+            for i in 0..calls {
+                let r = if (i + t) % 2 == 0 { f2.get_features() } else { f2.get_max_mem_slots() };
+                got.push(r.map_err(|e| format!("{e:?}")));
+            }
+            got
+        }));
+    }
+    let mut all: Vec<u64> = Vec::new();
+    let mut errors: Vec<String> = Vec::new();
+    for h in hs {
+        for r in h.join().unwrap_or_default() {
+            match r {
+                Ok(v) => all.push(v),
+                Err(e) => errors.push(e),
+            }
+        }
+    }
+    unsafe { libc::shutdown(ep_fd, libc::SHUT_RDWR) };
+    let (served, overlap) = peer_h.join().unwrap_or((0, 0));
+    c.reset();
+    let returned = all.len();
+    all.sort_unstable();
+    let mut dup: Vec<u64> = all.windows(2).filter(|w| w[0] == w[1]).map(|w| w[0]).collect();
+    dup.dedup();
+    let never_sent: Vec<u64> = all.iter().copied().filter(|v| *v <= 0x5000_0000 || *v > 0x5000_0000 + served).take(4).collect();
+    report::eval(1);
+    report::count("unique_values.calls", served);
+    report::distinct_str(&format!("unique:{}", rng.0));
+    let detail = jo! {"threads" => threads, "calls_per_thread" => calls, "replies_sent_each_with_a_value_of_its_own" => served, "calls_returned_ok" => returned, "values_returned_to_more_than_one_call" => dup.len(),
+        "examples" => dup.iter().take(4).map(|v| J::x64(*v)).collect::<Vec<J>>(), "values_never_sent" => never_sent.iter().map(|v| J::x64(*v)).collect::<Vec<J>>(), "errors" => errors.iter().take(3).cloned().collect::<Vec<String>>(), "overlapping_requests" => overlap};
+    if overlap > 0 {
+        report::violation("C10:fe:unique-values:second-request-inside-transaction", detail, cfg.replay("unique"));
+    } else if !dup.is_empty() || !never_sent.is_empty() || !errors.is_empty() {
+        report::violation("C10:fe:unique-values:caller-got-foreign-or-no-reply", detail, cfg.replay("unique"));
+    } else {
+        report::sample("unique-values", detail);
+    }
+    drop(peer);
+}
+
 pub fn run(cfg: &Cfg) {
     report::assume("hold points fe.sent / be_req.sent / gpu.sent sit inside the connection mutex on purpose: the property is that the mutex is held there");
     vhost::verif::set_hook(Some(Arc::new(|p, c| ctl::global().hook(p, c))));
@@ -693,6 +776,9 @@ pub fn run(cfg: &Cfg) {
     }
     if (part.is_empty() && cfg.shard == 0) || part == "all" || part == "stress" {
         stress(cfg, &mut rng);
+    }
+    if (part.is_empty() && cfg.shard == 2 % cfg.nshards.max(1)) || part == "all" || part == "unique" {
+        unique_values(cfg, &mut rng);
     }
     vhost::verif::set_hook(None);
     report::extra("x_second_lock_acquisitions_after_send", J::U(ctl::global().relock_hits()));
